@@ -340,18 +340,11 @@ pub fn take(w: &World) -> Snap {
     let known = known_addresses(w);
     let st: h::StateResponse = w.q(HUB, &h::QueryMsg::State {}).unwrap_or_else(|e| {
         errs.push(format!("hub State: {}", e));
-        h::StateResponse {
-            bsei_exchange_rate: Decimal::one(),
-            stsei_exchange_rate: Decimal::one(),
-            total_bond_bsei_amount: Uint128::zero(),
-            total_bond_stsei_amount: Uint128::zero(),
-            last_index_modification: 0,
-            prev_hub_balance: Uint128::zero(),
-            last_unbonded_time: 0,
-            last_processed_batch: 0,
-            total_bond_amount: Uint128::zero(),
-            exchange_rate: Decimal::one(),
-        }
+        crate::setup::mk(serde_json::json!({
+            "bsei_exchange_rate": "1", "stsei_exchange_rate": "1", "total_bond_bsei_amount": "0", "total_bond_stsei_amount": "0",
+            "last_index_modification": 0, "prev_hub_balance": "0", "last_unbonded_time": 0, "last_processed_batch": 0,
+            "total_bond_amount": "0", "exchange_rate": "1",
+        }))
     });
     // the hub's stored books, decoded from raw storage (item "\0\x05state", JSON) rather than through the hub's own
     // `STATE` constant, so that renaming or re-typing private items does not break the observer; when the layout is
@@ -359,15 +352,10 @@ pub fn take(w: &World) -> Snap {
     let raw = raw_hub_state(w).unwrap_or((st.total_bond_bsei_amount.u128(), st.total_bond_stsei_amount.u128(), at(st.bsei_exchange_rate), at(st.stsei_exchange_rate)));
     let params: h::Parameters = w.q(HUB, &h::QueryMsg::Parameters {}).unwrap_or_else(|e| {
         errs.push(format!("hub Parameters: {}", e));
-        h::Parameters {
-            epoch_period: 1,
-            underlying_coin_denom: USEI.to_string(),
-            unbonding_period: 1,
-            peg_recovery_fee: Decimal::zero(),
-            er_threshold: Decimal::one(),
-            reward_denom: KUSD.to_string(),
-            paused: None,
-        }
+        crate::setup::mk(serde_json::json!({
+            "epoch_period": 1, "underlying_coin_denom": USEI, "unbonding_period": 1, "peg_recovery_fee": "0", "er_threshold": "1",
+            "reward_denom": KUSD, "paused": null,
+        }))
     });
     let (batch_id, req_b, req_s) = match w.q::<h::CurrentBatchResponse, _>(HUB, &h::QueryMsg::CurrentBatch {}) {
         Ok(b) => (b.id, b.requested_bsei_with_fee.u128(), b.requested_stsei.u128()),
